@@ -60,6 +60,8 @@ def key_fn(ev, clause):
             return '%s|contig_per_process_plan|%s' % (clause, 'unplaced' if twice == ['*'] else 'contig')
         return '%s|contig_per_process_plan' % clause
     detail = ev['method'] if clause in ('Inv_C05_raised', 'Inv_C05_no_output') else ('no_rejects' if ev['no_rejects'] else 'default')
+    if ev.get('extra'):
+        detail += ':' + '_'.join(ev['extra'])
     if clause == 'Inv_C05_raised':
         detail += ':' + ev.get('raised', '')
     return '%s|%s|%s' % (clause, ev['mode'], detail)
@@ -166,7 +168,7 @@ def replay(path):
     with open(path) as f:
         rp = json.load(f)
     ev = rp['case']['event']
-    case = {k: ev[k] for k in ('layout', 'method', 'mode', 'threads', 'no_rejects', 'bamseed', 'ev')}
+    case = {k: ev.get(k) for k in ('layout', 'method', 'mode', 'threads', 'no_rejects', 'bamseed', 'ev', 'extra', 'index_state')}
     case['plan_only'] = False
     cp = os.path.join(vlib.scratch(), 'replay_case.json')
     json.dump(case, open(cp, 'w'))
